@@ -372,6 +372,10 @@ func TestRun(t *testing.T) {
 				if i >= len(scens) {
 					return
 				}
+				if rec.NViolations() > 12 {
+					rec.Count("scenarios_skipped_after_violations", 1)
+					continue
+				}
 				sc := scens[i]
 				r.one(sc)
 				rec.Eval(fmt.Sprintf("%d|%s|%v|%d|%s|%d", sc.Max, sc.Style, sc.Ticks, sc.AckAt, sc.Ack, sc.Cancel))
